@@ -23,8 +23,10 @@ def _impl():
 class Chain:
     """a real AMHL chain of n hops: setup, per-hop adapter witnesses, keys via the release cascade"""
 
-    def __init__(self, n, seed, rng, refunds=False):
-        """refunds: False (none), True (a random subset of hops), or the set of hop indices that have refund keys"""
+    def __init__(self, n, seed, rng, refunds=False, flags='00'):
+        """refunds: False (none), True (a random subset of hops), or the set of hop indices that have refund keys;
+        flags: the sigflags the whole chain is set up with (locks, adapter witnesses, decrypted signatures)"""
+        self.flags = flags
         F, T, AMHL = _impl()
         self.n = n
         self.seeds = [rng.randbytes(32) for _ in range(n)]
@@ -40,7 +42,7 @@ class Chain:
         old = T.time
         T.time = lambda: CREATE
         try:
-            self.res = T.setup_amhl(seed, list(self.pks), refund_pubkeys=refund, timeout=TIMEOUT)
+            self.res = T.setup_amhl(seed, list(self.pks), sigflags=flags, refund_pubkeys=refund, timeout=TIMEOUT)
         finally:
             T.time = old
         self.refund = refund or {}
@@ -59,7 +61,7 @@ class Chain:
                 self.problems.append(f'party {i}: view fails check_setup')
         if not AMHL.verify_lock_key(self.res[self.pks[n - 1]][2], self.res['key']):
             self.problems.append('the final key does not open the last lock')
-        self.wit = [T.make_adapter_witness(self.seeds[i], self.res[self.pks[i]][2], dict(self.sf[i])) for i in range(n)]
+        self.wit = [T.make_adapter_witness(self.seeds[i], self.res[self.pks[i]][2], dict(self.sf[i]), flags) for i in range(n)]
         for i in range(n):
             if not F.run_auth_scripts([bytes(self.wit[i].bytes), bytes(self.res[self.pks[i]][0].bytes)], dict(self.sf[i])):
                 self.problems.append(f'hop {i}: adapter witness does not satisfy the adapter lock')
@@ -80,6 +82,8 @@ class Chain:
     def attempt(self, hop, scalar):
         F, T, _ = _impl()
         sig = T.decrypt_adapter(self.wit[hop], scalar)
+        if self.flags != '00':
+            sig += bytes.fromhex(self.flags)
         lock2 = self.res[self.pks[hop]][1]
         wit = push(sig) + (op('TRUE') if self.pks[hop] in self.refund else b'')
         return F.run_auth_scripts([wit, bytes(lock2.bytes)], dict(self.sf[hop]))
@@ -89,7 +93,7 @@ class Chain:
         """hop j's refund key signs for the refund branch of hop `hop`'s lock, just before / after the timeout"""
         F, T, _ = _impl()
         t = CREATE + TIMEOUT + (1 if tm == 'after' else -1)
-        wit = T.make_ptlc_refund_witness(self.rseeds[j], dict(self.sf[hop]))
+        wit = T.make_ptlc_refund_witness(self.rseeds[j], dict(self.sf[hop]), self.flags)
         old = F.time
         F.time = lambda: t
         try:
@@ -98,12 +102,12 @@ class Chain:
             F.time = old
 
 
-def chain_for(n, tag=0, refunds=False):
+def chain_for(n, tag=0, refunds=False, flags='00'):
     refunds = frozenset(refunds) if isinstance(refunds, (set, frozenset, list, tuple)) else refunds
-    key = (n, tag, refunds)
+    key = (n, tag, refunds, flags)
     if key not in _chains:
         rng = random.Random(f'chain{n}/{tag}')
-        _chains[key] = (Chain(n, rng.randbytes(32), rng, refunds), Chain(n, rng.randbytes(32), rng))
+        _chains[key] = (Chain(n, rng.randbytes(32), rng, refunds, flags), Chain(n, rng.randbytes(32), rng))
     return _chains[key]
 
 
@@ -116,12 +120,18 @@ def scalar_of(a, b, nm, ix):
 
 
 def run_mc(k):
-    a, b = chain_for(k['n'], refunds=frozenset(k['refunds']))
-    if a.problems:
-        return 'setup:' + a.problems[0], None
-    if k['nm'] == 'F':
-        return ('opens' if a.attempt_refund(k['hop'], k['ix'], k['tm']) else 'fails'), None
-    return ('opens' if a.attempt(k['hop'], scalar_of(a, b, k['nm'], k['ix'])) else 'fails'), None
+    got = None
+    for flags in ('00', '01'):       # the whole chain set up without / with a sigflag masking one of the two sigfields
+        a, b = chain_for(k['n'], refunds=frozenset(k['refunds']), flags=flags)
+        if a.problems:
+            return 'setup:' + a.problems[0], f'sigflags {flags}'
+        if k['nm'] == 'F':
+            got = 'opens' if a.attempt_refund(k['hop'], k['ix'], k['tm']) else 'fails'
+        else:
+            got = 'opens' if a.attempt(k['hop'], scalar_of(a, b, k['nm'], k['ix'])) else 'fails'
+        if got != k['expect']:
+            return got, f'sigflags {flags}'
+    return got, None
 
 
 def record_random(args):
@@ -130,7 +140,7 @@ def record_random(args):
     for j in range(count):
         r = random.Random(f'{seed}/{j}')
         n = r.choice([2, 3, 4, 5, 6, 8])
-        a, b = chain_for(n, tag=r.randrange(3) + 1000 * seed, refunds=r.random() < 0.5)
+        a, b = chain_for(n, tag=r.randrange(3) + 1000 * seed, refunds=r.random() < 0.5, flags=r.choice(['00', '00', '01', '02', '80', '06']))
         if a.problems:
             out.append({'n': n, 'hop': 0, 'nm': 'K', 'ix': 0, 'tm': '', 'refunds': a.rhops, 'got': 'setup:' + a.problems[0]})
             continue
@@ -161,7 +171,7 @@ def main(tier: str, seed: int) -> int:
                 'run_auth_scripts on that hop\'s signature lock; the real release cascade (decrypt_adapter + '
                 'release_left_amhl_lock from the final key) must produce y_0 + .. + y_i for every hop, every view must pass '
                 'check_setup, each tweak point is recomputed independently. traces: chains of 2..8 hops, with and without refund '
-                'keys (PTLC locks), random attempt orders, judged by TLC.')
+                'keys (PTLC locks), chains set up with sigflags 00 / 01 / 02 / 06 / 80, random attempt orders, judged by TLC.')
     rep.assumptions = ['symbolic algebra', 'party 0 (the originator) is the payer of hop 0 and samples every secret: its partial secret is not an adversarial input']
     quick = tier == 'quick'
     scncheck.mc(rep, 'Amhl', 'mc', INV, run_mc, consts={'MaxHops': 5 if quick else 6, 'MaxRefundHops': 4 if quick else 5}, workers=8)
